@@ -10,6 +10,7 @@ from collections import Counter
 
 from . import env
 
+QUICK_FACTOR = 3
 MAX_ROUNDS = 5          # distinct root causes listed per shard and run
 MAX_SAMPLES_SHARD = 4
 MAX_SAMPLES = 10
@@ -92,7 +93,8 @@ def load_known(prop):
 
 def budget(quick, thorough, tier):
     """Case-count budget for a tier, scalable for experiments with VERIF_SCALE (never used by registered cmds)."""
-    n = quick if tier == 'quick' else thorough
+    # the per-check numbers were calibrated first for ~5 s; the registered quick tier runs three times as many
+    n = quick * QUICK_FACTOR if tier == 'quick' else thorough
     return max(1, int(n * float(os.environ.get('VERIF_SCALE', '1'))))
 
 
